@@ -12,7 +12,7 @@ open Emitter
 /-! ## base64 (URL alphabet, no padding) -/
 
 /-- the alphabet of `decodeMap`'s `init` (regenerated from base64.go). -/
-def alphabet : Bytes := strBytes Generated.base64Alphabet
+def alphabet : Bytes := Generated.base64Alphabet
 
 def encChar (i : Nat) : UInt8 := alphabet.getD i 0
 
@@ -21,24 +21,26 @@ def decodeMap (c : UInt8) : UInt8 :=
   let i := alphabet.idxOf c
   if i < 64 then UInt8.ofNat i else 0xFF
 
-/-- encoding/base64 `Encode` for RawURLEncoding: 3 bytes → 4 chars, tail 1 → 2 chars, 2 → 3 chars. -/
+/-- encoding/base64 `Encode` for RawURLEncoding: 3 bytes → 4 chars, tail 1 → 2 chars, 2 → 3 chars.
+`val = a<<16 | b<<8 | c`, sextets `val>>18&0x3F` …: stated arithmetically (see `be32`). -/
 def b64Encode : Bytes → Bytes
   | a :: b :: c :: rest =>
-      let v := (a.toNat <<< 16) ||| (b.toNat <<< 8) ||| c.toNat
-      encChar ((v >>> 18) &&& 0x3F) :: encChar ((v >>> 12) &&& 0x3F) ::
-      encChar ((v >>> 6) &&& 0x3F) :: encChar (v &&& 0x3F) :: b64Encode rest
+      let v := a.toNat * 65536 + b.toNat * 256 + c.toNat
+      encChar (v / 262144 % 64) :: encChar (v / 4096 % 64) ::
+      encChar (v / 64 % 64) :: encChar (v % 64) :: b64Encode rest
   | [a, b] =>
-      let v := (a.toNat <<< 16) ||| (b.toNat <<< 8)
-      [encChar ((v >>> 18) &&& 0x3F), encChar ((v >>> 12) &&& 0x3F), encChar ((v >>> 6) &&& 0x3F)]
+      let v := a.toNat * 65536 + b.toNat * 256
+      [encChar (v / 262144 % 64), encChar (v / 4096 % 64), encChar (v / 64 % 64)]
   | [a] =>
-      let v := (a.toNat <<< 16)
-      [encChar ((v >>> 18) &&& 0x3F), encChar ((v >>> 12) &&& 0x3F)]
+      let v := a.toNat * 65536
+      [encChar (v / 262144 % 64), encChar (v / 4096 % 64)]
   | [] => []
 
 /-- `decodeKey(dst, src)` of base64.go. The Go code decodes in place (dst aliases src); group g
 reads src[4g..4g+3] before it writes dst[3g..3g+2] and 3g+2 < 4(g+1), so the aliasing never
 clobbers unread input and the function is modelled as pure. `idx` is the offset of the group,
-kept only to reproduce the error position. -/
+kept only to reproduce the error position.
+`val = d0<<18 | d1<<12 | d2<<6 | d3`, bytes `val>>16, val>>8, val`: stated arithmetically. -/
 def decodeKeyAux : Bytes → Nat → Outcome Bytes
   | a :: b :: c :: d :: rest, idx =>
       let da := decodeMap a; let db := decodeMap b; let dc := decodeMap c; let dd := decodeMap d
@@ -46,25 +48,24 @@ def decodeKeyAux : Bytes → Nat → Outcome Bytes
       if db == 0xFF then .err s!"b64@{idx+1}" else
       if dc == 0xFF then .err s!"b64@{idx+2}" else
       if dd == 0xFF then .err s!"b64@{idx+3}" else
-      let v := (da.toNat <<< 18) ||| (db.toNat <<< 12) ||| (dc.toNat <<< 6) ||| dd.toNat
+      let v := da.toNat * 262144 + db.toNat * 4096 + dc.toNat * 64 + dd.toNat
       match decodeKeyAux rest (idx + 4) with
-      | .ok r => .ok (UInt8.ofNat (v >>> 16) :: UInt8.ofNat (v >>> 8) :: UInt8.ofNat v :: r)
+      | .ok r => .ok (UInt8.ofNat (v / 65536) :: UInt8.ofNat (v / 256) :: UInt8.ofNat v :: r)
       | e => e
   | [a, b, c], idx =>
       let da := decodeMap a; let db := decodeMap b; let dc := decodeMap c
       if da == 0xFF then .err s!"b64@{idx}" else
       if db == 0xFF then .err s!"b64@{idx+1}" else
       if dc == 0xFF then .err s!"b64@{idx+2}" else
-      let v := (da.toNat <<< 18) ||| (db.toNat <<< 12) ||| (dc.toNat <<< 6)
-      .ok [UInt8.ofNat (v >>> 16), UInt8.ofNat (v >>> 8)]
+      let v := da.toNat * 262144 + db.toNat * 4096 + dc.toNat * 64
+      .ok [UInt8.ofNat (v / 65536), UInt8.ofNat (v / 256)]
   | [a, b], idx =>
       let da := decodeMap a; let db := decodeMap b
       if da == 0xFF then .err s!"b64@{idx}" else
       if db == 0xFF then .err s!"b64@{idx+1}" else
-      let v := (da.toNat <<< 18) ||| (db.toNat <<< 12)
-      .ok [UInt8.ofNat (v >>> 16)]
-  | [a], idx =>
-      if decodeMap a == 0xFF then .err s!"b64@{idx}" else .err s!"b64@{idx}"
+      let v := da.toNat * 262144 + db.toNat * 4096
+      .ok [UInt8.ofNat (v / 65536)]
+  | [_], idx => .err s!"b64@{idx}"
   | [], _ => .ok []
 
 def decodeKey (src : Bytes) : Outcome Bytes := decodeKeyAux src 0
